@@ -44,6 +44,15 @@ type ReplayFile struct {
 	MinDraws  int                 `json:"minimised_draws"`
 	BuildTags string              `json:"build_tags,omitempty"`
 	Trace     []string            `json:"trace"`
+	// A run is meant to be a function of its tape. When the code under test keeps state in the
+	// process (a package-level cache, a shared object handed out twice), a violation can depend on
+	// what EARLIER runs of the same worker process did; the single run then does not reproduce in a
+	// fresh process. The file records the worker's stride so that the replay can re-execute the
+	// worker's runs from its first one up to this one (needs_history).
+	WorkerFrom    int    `json:"worker_from"`
+	WorkerStep    int    `json:"worker_step"`
+	OrigLogDigest string `json:"original_event_log_digest,omitempty"`
+	NeedsHistory  bool   `json:"needs_history,omitempty"`
 }
 
 // Sample is one explored case written into the evidence file.
@@ -180,6 +189,7 @@ func Worker(prop, engine, tier string, verifSeed uint64, from, step, total int, 
 		rf.RunIndex = i
 		rf.OrigFired = info.FiredKinds()
 		rf.OrigClass = v.Class
+		rf.WorkerFrom, rf.WorkerStep, rf.OrigLogDigest = from, step, info.LogDigest()
 		if id := findings.Match(rf); id != "" {
 			res.Known[id]++
 			if res.KnownRep[id] == "" {
@@ -255,6 +265,31 @@ func Replay(path string) (rf *ReplayFile, v *Violation, same bool, err error) {
 	e := Lookup(rf.Engine)
 	if e == nil {
 		return rf, nil, false, fmt.Errorf("unknown engine %q", rf.Engine)
+	}
+	if rf.NeedsHistory || os.Getenv("VERIF_REPLAY_HISTORY") != "" {
+		// re-execute the runs of the worker process that found it, from its first run on
+		step := rf.WorkerStep
+		if step <= 0 {
+			step = 1
+		}
+		var info *RunInfo
+		var hp any
+		for i := rf.WorkerFrom; i <= rf.RunIndex; i += step {
+			v, info, hp = runOnce(e, NewTape(RunSeed(rf.VerifSeed, rf.Engine, i)), rf.Property, rf.Tier, i == rf.RunIndex)
+			if hp != nil {
+				return rf, nil, false, fmt.Errorf("harness panic in run %d: %v", i, hp)
+			}
+		}
+		if v == nil || info == nil {
+			return rf, nil, false, nil
+		}
+		want := rf.OrigClass
+		if want == "" {
+			want = rf.Class
+		}
+		same = v.Class == want && (rf.OrigLogDigest == "" || info.LogDigest() == rf.OrigLogDigest)
+		fmt.Printf("(replayed with the history of its worker process: runs %d..%d, stride %d - the violation depends on state that earlier runs left in the process)\n", rf.WorkerFrom, rf.RunIndex, step)
+		return rf, v, same, nil
 	}
 	t := ReplayTape(rf.RunSeed, rf.Tapes)
 	v, info, hp := runOnce(e, t, rf.Property, rf.Tier, true)
@@ -453,6 +488,24 @@ func Check(o CheckOptions) int {
 			outb, _ = cmd.CombinedOutput()
 			code = cmd.ProcessState.ExitCode()
 			ok = code == 1 && bytes.Contains(outb, []byte("REPRODUCED")) && !bytes.Contains(outb, []byte("NOT-REPRODUCED"))
+		}
+		if !ok {
+			// does it depend on what earlier runs left in the worker process? replay with the history
+			cmd := exec.Command(o.Self, "replay", p)
+			cmd.Env = append(os.Environ(), "VERIF_REPLAY_HISTORY=1")
+			hb, _ := cmd.CombinedOutput()
+			if cmd.ProcessState.ExitCode() == 1 && bytes.Contains(hb, []byte("REPRODUCED")) && !bytes.Contains(hb, []byte("NOT-REPRODUCED")) && !bytes.Contains(hb, []byte("DIVERGED")) {
+				if b, err := os.ReadFile(p); err == nil {
+					var rf ReplayFile
+					if json.Unmarshal(b, &rf) == nil {
+						rf.NeedsHistory = true
+						rf.Detail += " [depends on state left in the process by earlier runs of the same worker: replayed with that history]"
+						if writeJSON(p, &rf) == nil {
+							ok = true
+						}
+					}
+				}
+			}
 		}
 		if ok {
 			confirmed = append(confirmed, p)
